@@ -293,7 +293,8 @@ func (s *Statement) Pipeline(task *pod_info.PodInfo, hostname string, updateTask
 		nextNode:                  hostname,
 		message:                   fmt.Sprintf("Pod %s/%s was pipelined to node %s", task.Namespace, task.Name, node.Name),
 		reverseOperation: func() error {
-			return s.unpipeline(task, previousNode, previousStatus, previousGpuGroup, previousResourceClaimInfo, previousIsVirtualStatus)
+			return s.unpipeline(task, previousNode, previousStatus, previousGpuGroup, previousResourceClaimInfo,
+				previousIsVirtualStatus, isSharedAndMoveToDifferentGPU)
 		},
 	})
 	task.IsVirtualStatus = true
@@ -445,7 +446,7 @@ func (s *Statement) commitPipeline(task *pod_info.PodInfo, message string) {
 func (s *Statement) unpipeline(
 	task *pod_info.PodInfo, previousNode string, previousStatus pod_status.PodStatus, previousGpuGroups []string,
 	previousResourceClaimInfo bindrequest_info.ResourceClaimInfo,
-	previousIsVirtualStatus bool) error {
+	previousIsVirtualStatus bool, movedFromDifferentGpuOnSameNode bool) error {
 	// Only update status in session
 	job, found := s.ssn.ClusterInfo.PodGroupInfos[task.Job]
 	if found {
@@ -469,6 +470,12 @@ func (s *Statement) unpipeline(
 		if err := node.RemoveTask(task); err != nil {
 			log.InfraLogger.Errorf("Failed to unpipeline task <%v/%v> from node <%v> in Session <%v>: %v",
 				task.Namespace, task.Name, hostname, s.sessionID, err)
+		}
+		if movedFromDifferentGpuOnSameNode {
+			// Pipelining to another GPU of the same node replaced the task's releasing copy in node.PodInfos while
+			// keeping that copy's resources charged (ConsolidateSharedPodInfoToDifferentGPU). Put the copy back, so that
+			// a following unevict updates it instead of adding - and charging - the task a second time.
+			node.PodInfos[pod_info.PodKey(task.Pod)] = task.Clone()
 		}
 	} else {
 		log.InfraLogger.Errorf("Failed to find Node <%s> in Session <%s> index when binding.",
